@@ -240,7 +240,7 @@ def factor_arithmetic(ctx, rep, rule: str) -> None:
         txt = " ".join(ast.unparse(d).split()) if d is not None else ""
         ok = txt == "[[*chain(range(k), range(k + 1, order))]] * 2"
         if not ok and d is not None:
-            ok = _dims_all_but_k(d)
+            ok = _dims_all_but_k(ast.parse(A.expanded(repo.owner(td[0]).node if repo.owner(td[0]) is not None else fi.node, d, displays=True), mode="eval").body)
     rep.ob(rule, "contraction-over-all-dims-but-k", ok, fi.loc(td[0]) if td else fi.loc(), "tensordot(G, G, dims=[[all dims except k]] * 2) — the mode-k Gram matrix")
 
 
